@@ -187,3 +187,35 @@ Proof.
   split; [apply complete_check; vm_compute; reflexivity|]. split; [apply complete_check; vm_compute; reflexivity|].
   split; [vm_compute; lia|]. split; [vm_compute; reflexivity|]. split; [exact X6|]. vm_compute. reflexivity.
 Qed.
+
+(** the hypothesis [complete (unroll F k t)] (no cycle through a reference) is needed: cJSON_Compare has no
+    recursion limit.  [exy_heap]: two arrays [1, <reference>] whose reference element points at the array's own
+    first element (what cJSON_AddItemReferenceToArray(a, a) builds on a non-empty array): the chain below the
+    reference is the array's chain again.  Every other hypothesis holds; no level of unrolling is complete; the
+    model runs out of recursion fuel ([NoFuel]: the C function recurses until the stack is exhausted — confirmed
+    on /repo with an ASan probe: stack-overflow in cJSON_Compare). *)
+Definition exy_arr (i e r : positive) : tree :=
+  T i (mkRD c_cJSON_Array None 0 dzero None None) [exr_num e (dbl_of_int 1); exr_ref r e].
+Definition exy_F : forest := [exy_arr 1 2 3; exy_arr 10 11 12].
+Definition exy_heap : heap := heap_of_forest exy_F exr_St.
+Definition out_err {A} (o : out (A * heap)) : option err := match o with Err e => Some e | Ret _ => None end.
+
+Lemma complete_check_conv t : complete t ->
+  forallb (fun n : fnode => match fn_cids n, rd_ref (fn_data n) with [], Some _ => false | _, _ => true end) (flat_t t) = true.
+Proof.
+  intros Hc. apply forallb_forall. intros [[i d] ks] Hin. apply elem_of_list_In in Hin. cbn.
+  destruct ks as [|k ks]; [|done]. by rewrite (Hc i d Hin).
+Qed.
+
+Theorem cycle_unbounded_recursion :
+  WF exy_heap exy_F /\ refs_in exy_F /\ strings_readable exy_heap exy_F /\
+  exy_arr 1 2 3 ∈ nodes exy_F /\ exy_arr 10 11 12 ∈ nodes exy_F /\
+  ~ complete (unroll exy_F 5 (exy_arr 1 2 3)) /\
+  out_err (cJSON_Compare (Some 1%positive) (Some 10%positive) true exy_heap) = Some NoFuel.
+Proof.
+  split; [apply heap_of_forest_WF; vm_compute; reflexivity|]. split; [apply refs_in_check; vm_compute; reflexivity|].
+  split; [apply heap_of_forest_SR; vm_compute; reflexivity|].
+  split; [apply (elem_of_list_lookup_2 _ 0%nat); reflexivity|]. split; [apply (elem_of_list_lookup_2 _ 3%nat); reflexivity|].
+  split; [|vm_compute; reflexivity].
+  intros Hc. apply complete_check_conv in Hc. vm_compute in Hc. discriminate Hc.
+Qed.
